@@ -276,4 +276,172 @@ theorem dest_key (destdir pfx ip : Str) (hd : destdir ≠ []) (hpfx : isAbs pfx 
         pureTail_destdirJoin _ _ hd hpfx, keyOfAbs_noDD _ h1, keyOfAbs_noDD _ h2, keyOfAbs_noDD _ h3,
         List.append_assoc]
 
+/-! ### `normpath` of an absolute path, and the staging check of `get_destdir_path` -/
+
+theorem foldl_normStep_abs (init : Nat) (hi : init ≠ 0) (cs : List Str) (acc : List Str) (hacc : dotdot ∉ acc) :
+    cs.foldl (normStep init) acc = cs.foldl keyStep acc ∧ dotdot ∉ cs.foldl keyStep acc := by
+  induction cs generalizing acc with
+  | nil => exact ⟨rfl, hacc⟩
+  | cons c t ih =>
+    simp only [List.foldl_cons]
+    have hstep : normStep init acc c = keyStep acc c := by
+      unfold normStep keyStep
+      by_cases ha : c = []
+      · simp [ha]
+      · by_cases hb : c = ['.']
+        · simp [hb]
+        · by_cases h2 : c = dotdot
+          · have hl : acc.getLast? ≠ some dotdot := fun hl => hacc (List.mem_of_getLast? hl)
+            subst h2
+            have hl' : acc.getLast? ≠ some ['.', '.'] := hl
+            simp [hi, hl', dotdot]
+          · simp [ha, hb, h2]
+    have hinv : dotdot ∉ keyStep acc c := by
+      unfold keyStep
+      split
+      · exact hacc
+      · split
+        · intro hm; exact hacc (List.dropLast_subset _ hm)
+        · rename_i _ h2
+          intro hm
+          rcases List.mem_append.mp hm with hm | hm
+          · exact hacc hm
+          · simp at hm; exact h2 hm.symm
+    rw [hstep]
+    exact ih _ hinv
+
+theorem foldl_keyStep_clean (cs : List Str) (acc : Key) (hcs : ∀ c ∈ cs, '/' ∉ c)
+    (hacc : ∀ c ∈ acc, c ≠ [] ∧ '/' ∉ c) : ∀ c ∈ cs.foldl keyStep acc, c ≠ [] ∧ '/' ∉ c := by
+  induction cs generalizing acc with
+  | nil => exact hacc
+  | cons c t ih =>
+    simp only [List.foldl_cons]
+    apply ih _ (fun x hx => hcs x (by simp [hx]))
+    unfold keyStep
+    split
+    · exact hacc
+    · split
+      · intro x hx; exact hacc x (List.dropLast_subset _ hx)
+      · rename_i h1 _
+        intro x hx
+        rcases List.mem_append.mp hx with hx | hx
+        · exact hacc x hx
+        · simp at hx; subst hx
+          refine ⟨?_, hcs x (by simp)⟩
+          intro e; exact h1 (by simp [e])
+
+theorem foldl_keyStep_nodot (cs : List Str) (acc : Key) (hacc : ∀ c ∈ acc, c ≠ ['.']) :
+    ∀ c ∈ cs.foldl keyStep acc, c ≠ ['.'] := by
+  induction cs generalizing acc with
+  | nil => exact hacc
+  | cons c t ih =>
+    simp only [List.foldl_cons]
+    apply ih
+    unfold keyStep
+    split
+    · exact hacc
+    · split
+      · intro x hx; exact hacc x (List.dropLast_subset _ hx)
+      · rename_i h1 _
+        intro x hx
+        rcases List.mem_append.mp hx with hx | hx
+        · exact hacc x hx
+        · simp at hx; subst hx
+          intro e; exact h1 (by simp [e])
+
+theorem keyOfAbs_clean (p : Str) : ∀ c ∈ keyOfAbs p, c ≠ [] ∧ '/' ∉ c :=
+  foldl_keyStep_clean _ _ (mem_splitOn_noSep '/' p) (by simp)
+
+theorem initialSlashes_of_isAbs (p : Str) (h : isAbs p = true) :
+    initialSlashes p = 1 ∨ initialSlashes p = 2 := by
+  unfold isAbs at h
+  unfold initialSlashes
+  split at h
+  · split <;> simp_all
+  · simp at h
+
+/-- for an absolute path, `normpath` is its leading slashes followed by the components of its key -/
+theorem normpath_abs (p : Str) (h : isAbs p = true) :
+    normpath p = pureFormat (List.replicate (initialSlashes p) '/') (keyOfAbs p) := by
+  have hne : p ≠ [] := by intro e; subst e; simp [isAbs] at h
+  have hi : initialSlashes p ≠ 0 := by rcases initialSlashes_of_isAbs p h with e | e <;> omega
+  unfold normpath
+  simp only [hne, if_false]
+  rw [(foldl_normStep_abs _ hi _ [] (by simp)).1]
+  rfl
+
+theorem pureParts_normpath_abs (p : Str) (h : isAbs p = true) :
+    ∃ r, normParts p = r :: keyOfAbs p := by
+  have hclean := keyOfAbs_clean p
+  have hr : List.replicate (initialSlashes p) '/' = ['/'] ∨ List.replicate (initialSlashes p) '/' = ['/', '/'] := by
+    rcases initialSlashes_of_isAbs p h with e | e <;> simp [e, List.replicate]
+  obtain ⟨pre, hpre, hs⟩ := splitOn_pureFormat (List.replicate (initialSlashes p) '/') (keyOfAbs p)
+    (by rcases hr with e | e <;> simp [e]) hclean
+  have htail : pureTail (normpath p) = keyOfAbs p := by
+    rw [normpath_abs p h, pureTail_eq, hs, List.filter_append]
+    have h1 : pre.filter isComp = [] := by
+      rw [List.filter_eq_nil_iff]
+      intro x hx
+      rcases hpre x hx with rfl | rfl <;> decide
+    have h2 : (keyOfAbs p).filter isComp = keyOfAbs p := by
+      rw [List.filter_eq_self]
+      intro c hc
+      have hd : c ≠ ['.'] := by
+        intro e
+        have := foldl_keyStep_nodot (splitOn '/' p) [] (by simp) c hc
+        exact this e
+      simp [isComp, (hclean c hc).1, hd]
+    simp [h1, h2]
+  have habs : isAbs (normpath p) = true := by
+    rw [normpath_abs p h]
+    unfold pureFormat
+    rcases hr with e | e <;> simp [e, isAbs]
+  refine ⟨pureRoot (normpath p), ?_⟩
+  unfold normParts pureParts
+  simp [pureRoot_ne_nil_of_isAbs _ habs, htail]
+
+/-- soundness of the staging check: when it passes, the destination's key lies under DESTDIR's key -/
+theorem destOk_sound (d out : Str) (hd : isAbs d = true) (ho : isAbs out = true) (h : destOk d out = true) :
+    keyOfAbs d <+: keyOfAbs out := by
+  have hne : d ≠ [] := by intro e; subst e; simp [isAbs] at hd
+  obtain ⟨rd, h1⟩ := pureParts_normpath_abs d hd
+  obtain ⟨ro, h2⟩ := pureParts_normpath_abs out ho
+  unfold destOk at h
+  simp only [hne, decide_false, Bool.false_or, h1, h2] at h
+  have := List.isPrefixOf_iff_prefix.mp h
+  exact (List.cons_prefix_cons.mp this).2
+
+theorem isAbs_cons (p : Str) : isAbs ('/' :: p) = true := rfl
+
+theorem isAbs_elim (p : Str) (h : isAbs p = true) : ∃ t, p = '/' :: t := by
+  unfold isAbs at h
+  split at h
+  · exact ⟨_, rfl⟩
+  · simp at h
+
+theorem isAbs_destdirJoin (d p : Str) (hd : isAbs d = true) : isAbs (destdirJoin d p) = true := by
+  have hne : d ≠ [] := by intro e; subst e; simp [isAbs] at hd
+  unfold destdirJoin pureFormat
+  simp only [hne, if_false]
+  rcases pureRoot_cases d with h | h | h
+  · exact absurd h (pureRoot_ne_nil_of_isAbs d hd)
+  · simp [h, isAbs]
+  · simp [h, isAbs]
+
+theorem isAbs_join (a b : Str) (ha : isAbs a = true) : isAbs (join a b) = true := by
+  obtain ⟨t, rfl⟩ := isAbs_elim a ha
+  unfold join
+  by_cases hb : isAbs b = true
+  · simp [hb]
+  · have hb' : isAbs b = false := by simpa using hb
+    simp only [hb', Bool.false_eq_true, if_false]
+    split <;> simp [isAbs]
+
+theorem isAbs_getDestdirPath (d pfx path : Str) (hd : isAbs d = true) :
+    isAbs (getDestdirPath d (destdirJoin d pfx) path) = true := by
+  unfold getDestdirPath
+  split
+  · exact isAbs_destdirJoin d path hd
+  · exact isAbs_join _ _ (isAbs_destdirJoin d pfx hd)
+
 end MesonModel.Install
